@@ -1,153 +1,9 @@
-// C11: LC_CSR_CSC_Graph — in-edges constructed from the out-edges
-// (constructIncomingEdges: count, prefix sum, atomic slot claiming), in-edge
-// data by value or shared with the out-edge, in-edge sorting, and the direct
-// .gr reader readAndConstructBiGraphFromGRFile.
-#include "c11_csr.h"
+// C11: csc family, representative subset of the template matrix (quick + thorough)
+#include "c11_fam_csc.h"
 
 namespace c11 {
 
-template <class G>
-void observeIn(G& g, const Indexer<G>& ix, Obs& o, galois::MethodFlag flag) {
-  o.adj.assign(ix.nodes.size(), {});
-  for (size_t i = 0; i < ix.nodes.size(); ++i) {
-    auto b = g.in_edge_begin((uint32_t)i, flag);
-    auto e = g.in_edge_end((uint32_t)i, flag);
-    auto d = std::distance(b, e);
-    if (d < 0 || (uint64_t)d > (1ull << 32)) {
-      if (o.err.empty())
-        o.err = "node " + std::to_string(i) + ": in_edge_end precedes in_edge_begin";
-      continue;
-    }
-    auto& a = o.adj[i];
-    for (auto it = b; it != e; ++it) {
-      uint64_t src = g.getInEdgeDst(it);
-      if (src >= ix.nodes.size() && o.err.empty())
-        o.err = "node " + std::to_string(i) + ": in-edge source is not a node of the graph";
-      ref::RefEdge r(src);
-      if constexpr (graphHasEdgeData<G>)
-        toRef<typename G::edge_data_type>(g.getInEdgeData(it), r);
-      a.push_back(std::move(r));
-    }
-  }
-}
-
-template <class G>
-bool verifyIn(Ctx& c, G& g, const Indexer<G>& ix, bool sorted) {
-  Obs in;
-  observeIn(g, ix, in, c.rng.below(2) ? galois::MethodFlag::UNPROTECTED : galois::MethodFlag::WRITE);
-  if (!checkMultiset(c, in, c.XT(), "in-edges", true))
-    return false;
-  if (sorted && !checkSortedByDst(c, in, "in-edges"))
-    return false;
-  uint64_t run = 0;
-  auto& pfx    = g.getInEdgePrefixSum();
-  for (uint64_t n = 0; n < c.X.numNodes; ++n) {
-    uint64_t want = c.XT().adj[n].size();
-    run += want;
-    uint64_t k = 0;
-    for (auto ii : g.in_edges((uint32_t)n, galois::MethodFlag::UNPROTECTED)) {
-      (void)ii;
-      if (++k > want + 4)
-        break;
-    }
-    if (g.getInDegree((uint32_t)n) != want || k != want || pfx[n] != run) {
-      c.fail("in-edges-degree", J().kv("node", n).kv("expected", want).kv("getInDegree", g.getInDegree((uint32_t)n))
-                                    .kv("in_edges_range", k).kv("prefix_sum", (uint64_t)pfx[n]).kv("expected_prefix", run).str());
-      return false;
-    }
-  }
-  return true;
-}
-
-template <class G>
-void opInEdges(Ctx& c) {
-  G g;
-  loadCsr<G, CscFam>(c, g, c.file(), c.esz);
-  g.constructIncomingEdges();
-  ++c.transposes;
-  if (!verifyCsr<G, CscFam>(c, g, c.X, true, "read"))
-    return;
-  Indexer<G> ix;
-  ix.build(g, c.X.numNodes + 8);
-  verifyIn(c, g, ix, false);
-}
-
-template <class G>
-void opSortIn(Ctx& c) {
-  G g;
-  loadCsr<G, CscFam>(c, g, c.file(), c.esz);
-  g.constructIncomingEdges();
-  ++c.transposes;
-  if (c.rng.below(2))
-    g.sortAllInEdgesByDst();
-  else
-    for (uint64_t n = 0; n < c.X.numNodes; ++n)
-      g.sortInEdgesByDst((uint32_t)n);
-  Indexer<G> ix;
-  ix.build(g, c.X.numNodes + 8);
-  if (!verifyIn(c, g, ix, true))
-    return;
-  // the out-edges are untouched
-  Obs o;
-  observeOut(g, ix, o, galois::MethodFlag::UNPROTECTED);
-  checkOrdered(c, o, c.X, "read");
-}
-
-template <class G>
-void opBiGR(Ctx& c) {
-  G g;
-  g.readAndConstructBiGraphFromGRFile(c.file());
-  ++c.builds;
-  ++c.transposes;
-  if (!verifyCsr<G, CscFam>(c, g, c.X, true, "read"))
-    return;
-  Indexer<G> ix;
-  ix.build(g, c.X.numNodes + 8);
-  verifyIn(c, g, ix, false);
-}
-
-enum CscOps : unsigned { C_READ = 1, C_IN = 2, C_SORTIN = 4, C_BIGR = 8, C_ALL = 15 };
-
-template <class G>
-void regCsc(const std::string& cfg, unsigned ops) {
-  using E = typename G::edge_data_type;
-  auto& R = registry();
-  if (ops & C_READ)
-    R.push_back(mkEntry<E>(CscFam::name, cfg, "read", &opRead<G, CscFam>));
-  if (ops & C_IN)
-    R.push_back(mkEntry<E>(CscFam::name, cfg, "in_edges", &opInEdges<G>, 0, 3));
-  if (ops & C_SORTIN)
-    R.push_back(mkEntry<E>(CscFam::name, cfg, "sortInEdgesByDst", &opSortIn<G>, 0, 2));
-  if (ops & C_BIGR)
-    R.push_back(mkEntry<E>(CscFam::name, cfg, "readAndConstructBiGraphFromGRFile", &opBiGR<G>));
-}
-
-// LC_CSR_CSC_Graph<NodeTy, EdgeTy, EdgeDataByValue, HasNoLockable, UseNumaAlloc, HasOutOfLineLockable>
-template <class E, bool ByVal, bool NL = false, bool NU = false, bool OOL = false>
-using Csc = gg::LC_CSR_CSC_Graph<uint32_t, E, ByVal, NL, NU, OOL>;
-
-template <class E>
-void regCscFull() {
-  regCsc<Csc<E, true>>("byvalue", C_ALL);
-  regCsc<Csc<E, false>>("shared", C_ALL);
-  regCsc<Csc<E, true, true, false, false>>("byvalue+nolock", C_IN | C_SORTIN);
-  regCsc<Csc<E, false, true, false, false>>("shared+nolock", C_IN | C_SORTIN);
-  regCsc<Csc<E, true, false, true, false>>("byvalue+numa", C_IN | C_SORTIN);
-  regCsc<Csc<E, false, false, true, false>>("shared+numa", C_IN | C_SORTIN);
-  regCsc<Csc<E, true, false, false, true>>("byvalue+ool", C_IN | C_SORTIN);
-  regCsc<Csc<E, false, false, false, true>>("shared+ool", C_IN | C_SORTIN);
-  regCsc<Csc<E, true, false, true, true>>("byvalue+ool+numa", C_IN | C_SORTIN);
-  regCsc<Csc<E, false, false, true, true>>("shared+ool+numa", C_IN | C_SORTIN);
-}
-
 void registerCsc() {
-#if 0 // full matrix: see c11_x_*.cpp
-  regCscFull<void>();
-  regCscFull<uint32_t>();
-  regCscFull<uint64_t>();
-  regCscFull<float>();
-  regCscFull<E12>();
-#else
   regCsc<Csc<void, true>>("byvalue", C_ALL);
   regCsc<Csc<void, false>>("shared", C_ALL);
   regCsc<Csc<uint32_t, true>>("byvalue", C_ALL);
@@ -156,7 +12,6 @@ void registerCsc() {
   regCsc<Csc<E12, false>>("shared", C_IN | C_SORTIN);
   regCsc<Csc<uint64_t, false, true, true, false>>("shared+nolock+numa", C_IN | C_SORTIN);
   regCsc<Csc<float, true, false, true, true>>("byvalue+ool+numa", C_IN | C_SORTIN | C_BIGR);
-#endif
 }
 
 } // namespace c11
